@@ -113,7 +113,7 @@ def run(ctx):
     prog = ctx.prog
     ce = ConstEval(prog)
     spec = _load_spec()
-    ctx.clauses_decided = ["R1 one-based -> zero-based", "R2 column layouts", "R3 chemists' -> physicists'", "R4 triangular / block unpacking", "R5 permutation literals", "R6 labelled records attached by label", "R7 index maps of reshaping expressions (symbolic evaluation)", "R8 no placement by narrow counter fields", "R9 VASP coordinate-mode switch", "R10 deferred application of section data", "R11 Molden tag meaning (finite-domain evaluation)", "R12 block precedence in log scans", "R13 GRO box order (evaluated)", "R14 pass-through key collisions", "R15 MOL2 atom record fields (evaluated)", "R16 PDB ATOM record fields (evaluated)"]
+    ctx.clauses_decided = ["R1 one-based -> zero-based", "R2 column layouts", "R3 chemists' -> physicists'", "R4 triangular / block unpacking", "R5 permutation literals", "R6 labelled records attached by label", "R7 index maps of reshaping expressions (symbolic evaluation)", "R8 no placement by narrow counter fields", "R9 VASP coordinate-mode switch", "R10 deferred application of section data", "R11 Molden tag meaning (finite-domain evaluation)", "R12 block precedence in log scans", "R13 GRO box order (evaluated)", "R14 pass-through key collisions", "R15 MOL2 atom record fields (evaluated)", "R16 PDB ATOM record fields (evaluated)", "R17 WFN nucleus record (evaluated)", "R18 CHARMM crd record (evaluated)", "R19 Gaussian-log matrix blocks (evaluated)"]
     ctx.clauses_declined = ["free-format and log-file parsers beyond R1/R3/R4/R5", "numerical accuracy of parsed values", "Fortran D exponents"]
 
     # ------------------------------------------------------------------ R2
@@ -589,6 +589,12 @@ def run(ctx):
     ctx.rule("R16", "PDB ATOM record: every field reaches the slot of the same name; the element column is read in the spellings files use (evaluated)", "occupancy and temperature factor swapped, or a file with upper-case two-letter element symbols rejected")
     check_pdb_atom_record(ctx, "R16")
     check_pdb_conect_lookup(ctx, "R6")
+    ctx.rule("R17", "WFN nucleus record: symbol and the three twelve-column coordinates reach their slots (evaluated)", "a coordinate that fills its field loses its sign or its first digit")
+    check_wfn_atom_record(ctx, "R17")
+    ctx.rule("R18", "CHARMM crd atom record: every column reaches its slot (evaluated)", "residue number and residue id swapped, or the weight column read as a coordinate")
+    check_charmm_record(ctx, "R18")
+    ctx.rule("R19", "Gaussian-log five-column blocks are unpacked to the right matrix elements, both triangles (evaluated)", "the mirror store dropped, the row-label column taken as a value, or the second block shifted")
+    check_gaussianlog_blocks(ctx, "R19")
 
 
 NARROW_POSITIVE = '''
@@ -1011,3 +1017,139 @@ def check_pdb_conect_lookup(ctx, rid):
             ctx.violate(rid, f"pdb.load_one stores the bond endpoints `{', '.join(bad)}` without looking the CONECT serial numbers up in a table of the atoms' serial numbers (columns 7-11): with a TER record or a numbering that does not start at 1 the bonds are attached to other atoms", f, n)
         else:
             ctx.ok(rid, f"pdb.load_one: CONECT serial numbers are resolved through `{sorted(tables)}` (filled from columns 7-11 of the atom records)", f"{f.module.relpath}:{n.lineno}")
+
+
+def check_wfn_atom_record(ctx, rid):
+    """WFN nucleus records, FORMAT (A8,16X,3F12.8): the reader is evaluated on model records whose three coordinates
+    fill their twelve columns (so that neighbouring fields touch) and differ from each other; element symbols in the
+    spellings programs write (`CL`, `Cl`, AIMAll's `H12`)."""
+    from ..accessors import AccessorEval, Raised, Rec
+    from ..symarr import NotSymbolic
+
+    prog = ctx.prog
+    f = prog.funcs.get("iodata.formats.wfn._load_helper_atoms")
+    if f is None:
+        raise AnalysisError("wfn._load_helper_atoms not found")
+    licls = prog.cls("iodata.utils.LineIterator")
+    fmt = "  {0:3s}{1:3d}    (CENTRE{2:3d}) {3:12.8f}{4:12.8f}{5:12.8f}  CHARGE ={6:5.1f}"
+    recs = [
+        ("O", 8, (-10.12345678, -20.87654321, -30.11112222)),
+        ("CL", 17, (1.5, -2.25, 3.125)),
+        ("Cl", 17, (100.12345678, 200.87654321, 300.5)),
+        ("H12", 1, (0.0, -0.5, 0.25)),
+    ]
+    lines = [fmt.format(sym, i + 1, i + 1, x, y, z, float(num)) + "\n" for i, (sym, num, (x, y, z)) in enumerate(recs)]
+    lit = Rec(licls, filename="F", fh=iter(lines), lineno=0, stack=[])
+    ev = AccessorEval(prog, licls, limit=4000)
+    ev.module = f.module
+    try:
+        atnums, atcoords = ev.run_free(f, [lit, len(recs)], {})
+    except Raised as exc:
+        ctx.violate(rid, f"WFN nucleus records: the reader raises {exc.args[0]} on well-formed records with wide coordinates", f, f.node, construct="wfn atom record: raises")
+        return
+    except NotSymbolic as exc:
+        raise AnalysisError(f"wfn._load_helper_atoms is outside the evaluation whitelist: {exc}") from exc
+    bad = None
+    for i, (sym, num, xyz) in enumerate(recs):
+        got = [float(v) for v in np.asarray(atcoords[i], dtype=float)]
+        if int(round(float(atnums[i]))) != num:
+            bad = f"symbol `{sym}` is read as atomic number {atnums[i]} (expected {num})"
+        elif any(abs(g - w) > 1e-9 for g, w in zip(got, xyz)):
+            k = next(j for j in range(3) if abs(got[j] - xyz[j]) > 1e-9)
+            bad = f"record {i + 1}: {'xyz'[k]} = {xyz[k]} is read as {got[k]} (FORMAT (A8,16X,3F12.8): columns {24 + 12 * k}-{36 + 12 * k})"
+        if bad:
+            break
+    if bad:
+        ctx.violate(rid, f"WFN nucleus records, {bad}", f, f.node, construct=f"wfn atom record: {bad}"[:160])
+    else:
+        ctx.ok(rid, "WFN nucleus records: symbols (O, CL, Cl, H12) and three coordinates that fill their columns arrive in their slots", f"{f.module.relpath}:{f.lineno}")
+
+
+def check_charmm_record(ctx, rid):
+    """CHARMM crd atom records (`atomno resno res type x y z segid resid weight`): the reader evaluated on model
+    records whose ten tokens all differ; each token must arrive in the slot of its column."""
+    from ..accessors import AccessorEval, Raised, Rec
+    from ..symarr import NotSymbolic
+
+    prog = ctx.prog
+    f = prog.funcs.get("iodata.formats.charmm._helper_read_crd")
+    if f is None:
+        raise AnalysisError("charmm._helper_read_crd not found")
+    licls = prog.cls("iodata.utils.LineIterator")
+    recs = [
+        ("    1    7 TIP3 OH2    1.50000  -2.25000   3.12500 W    42     15.99900", (7, "TIP3", "OH2", (1.5, -2.25, 3.125), "W", 42, 15.999)),
+        ("    2    8 ALA  CA   -10.00000  20.50000 -30.75000 PROA 9      12.01100", (8, "ALA", "CA", (-10.0, 20.5, -30.75), "PROA", 9, 12.011)),
+    ]
+    lit = Rec(licls, filename="F", fh=iter([f"{len(recs):5d}\n"] + [r + "\n" for r, _ in recs]), lineno=0, stack=[])
+    ev = AccessorEval(prog, licls, limit=4000)
+    ev.module = f.module
+    ev._globals = {("iodata.utils", "angstrom"): 1.0, ("iodata.utils", "amu"): 1.0}
+    try:
+        resnums, resnames, attypes, pos, segid, resid, masses = ev.run_free(f, [lit], {})
+    except Raised as exc:
+        ctx.violate(rid, f"CHARMM crd records: the reader raises {exc.args[0]} on well-formed records", f, f.node, construct="charmm record: raises")
+        return
+    except NotSymbolic as exc:
+        raise AnalysisError(f"charmm._helper_read_crd is outside the evaluation whitelist: {exc}") from exc
+    bad = None
+    for i, (_, (rn, res, typ, xyz, seg, rid_, mass)) in enumerate(recs):
+        got = dict(resno=list(resnums)[i], res=list(resnames)[i], type=list(attypes)[i], x=float(pos[i][0]), y=float(pos[i][1]), z=float(pos[i][2]), segid=list(segid)[i], resid=list(resid)[i], weight=float(list(masses)[i]))
+        want = dict(resno=rn, res=res, type=typ, x=xyz[0], y=xyz[1], z=xyz[2], segid=seg, resid=rid_, weight=mass)
+        wrong = [k for k in want if (abs(got[k] - want[k]) > 1e-5 if isinstance(want[k], float) else got[k] != want[k])]
+        if wrong:
+            bad = f"record {i + 1}: column `{wrong[0]}` is loaded as {got[wrong[0]]!r}, the record says {want[wrong[0]]!r}"
+            break
+    if bad:
+        ctx.violate(rid, f"CHARMM crd atom records, {bad}", f, f.node, construct=f"charmm record: {bad}"[:160])
+    else:
+        ctx.ok(rid, "CHARMM crd atom records: residue number, names, coordinates, segment, residue id and weight arrive in their slots", f"{f.module.relpath}:{f.lineno}")
+
+
+def check_gaussianlog_blocks(ctx, rid):
+    """Gaussian-log lower-triangular matrices printed in blocks of five columns: the block reader is evaluated on a
+    model stream for a 7 x 7 matrix whose printed numbers spell their own (row, column); the result must hold every
+    number at (row, column) and at (column, row)."""
+    from ..accessors import AccessorEval, Raised, Rec
+    from ..symarr import NotSymbolic
+
+    prog = ctx.prog
+    cands = [g for g in prog.package_funcs() if g.module.name == "iodata.formats.gaussianlog" and g.name.startswith("_load_twoindex")]
+    if len(cands) != 1:
+        raise AnalysisError(f"gaussianlog: expected one _load_twoindex* helper, found {[g.name for g in cands]}")
+    f = cands[0]
+    licls = prog.cls("iodata.utils.LineIterator")
+    n = 7
+    val = lambda i, j: (i + 1) + (j + 1) / 100.0  # row.column, e.g. 6.03
+    lines = []
+    for b0 in range(0, n, 5):
+        cols = list(range(b0, min(b0 + 5, n)))
+        lines.append("        " + "".join(f"{c + 1:14d}" for c in cols) + "\n")
+        for i in range(b0, n):
+            vals = [val(i, j) for j in cols if j <= i]
+            lines.append(f"{i + 1:7d} " + "".join(f"{v:14.6E}".replace("E", "D") for v in vals) + "\n")
+    lit = Rec(licls, filename="F", fh=iter(lines), lineno=0, stack=[])
+    ev = AccessorEval(prog, licls, limit=20000)
+    ev.module = f.module
+    try:
+        res = np.asarray(ev.run_free(f, [lit, n], {}), dtype=float)
+    except Raised as exc:
+        ctx.violate(rid, f"Gaussian-log matrix blocks: the reader raises {exc.args[0]} on a well-formed 7 x 7 lower triangle in two blocks", f, f.node, construct="gaussianlog blocks: raises")
+        return
+    except NotSymbolic as exc:
+        raise AnalysisError(f"{f.qualname} is outside the evaluation whitelist: {exc}") from exc
+    bad = None
+    rest = [x for x in lit.fields["fh"]]
+    if rest or lit.fields["stack"]:
+        bad = f"{len(rest) + len(lit.fields['stack'])} line(s) of the matrix are left unread"
+    for i in range(n):
+        for j in range(i + 1):
+            if bad:
+                break
+            if abs(res[i, j] - val(i, j)) > 1e-6:
+                bad = f"element ({i + 1}, {j + 1}) is {res[i, j]:.2f}; the file says {val(i, j):.2f}"
+            elif abs(res[j, i] - val(i, j)) > 1e-6:
+                bad = f"the mirror element ({j + 1}, {i + 1}) is {res[j, i]:.2f}; the matrix is symmetric, expected {val(i, j):.2f}"
+    if bad:
+        ctx.violate(rid, f"Gaussian-log matrix blocks, {bad}", f, f.node, construct=f"gaussianlog blocks: {bad}"[:160])
+    else:
+        ctx.ok(rid, "Gaussian-log matrix blocks: a 7 x 7 lower triangle in two five-column blocks (D exponents) is unpacked to the right elements and mirrored", f"{f.module.relpath}:{f.lineno}")
